@@ -955,6 +955,25 @@ def rebind_sweep_cases(rng, per_len, quirks):
       else:
         init, pos, pre = [{'a': elems, 'b': 1}], D.P(0), ['a']
       enc = [[[D.enc_key(k) for k in pre + path], v] for path, v in pairs]
+      # The shared driver orders the values a batch detaches by the positions its paths address BEFORE the call; growth of the list
+      # inside the batch shifts what a later negative index addresses.  Keep the batches that detach at most one stored dict (the
+      # order of the detached roots in the snapshot is then unambiguous); the others are dropped, not patched.
+      try:
+        tmp = D.Impl()
+        def pval(v):
+          x = tmp.value(v)
+          return Ins(plain(x.value)) if isinstance(x, D.pg().Insertion) else plain(x)
+        sim = plain(tmp.lit(D.mk(init[0])))
+        held = [e for e in (sim if isinstance(sim, list) else sim['a']) if isinstance(e, dict)]
+        try:
+          reference(sim if layout != 'list-in-dict' else sim['a'], [D.REBIND, pos, enc], [pval(v) for _, v in enc], notify=scope is NS)
+        except (IndexError, KeyError, TypeError, ValueError, Skip):
+          pass
+        now = sim if isinstance(sim, list) else sim['a']
+        if sum(1 for e in held if not any(e is y for y in now)) > 1:
+          continue
+      except Exception:      # pylint: disable=broad-except
+        continue
       probes = [list(range(-n - 4, n + 4)), [[[], [], [-1]], [[9], [], []], [[], [-2], [3]]], [[0, [2, 100]], [0, [2, 10]]],
                 [D.enc_key('a'), D.enc_key('b')]]
       steps = [[scope, [D.REBIND, pos, enc], probes]]
